@@ -33,7 +33,7 @@ var (
 
 func isStringLike(v value) bool {
 	switch v.(type) {
-	case string, sstr, sdate, snum:
+	case string, sstr, sdate, snum, shash:
 		return true
 	}
 	return false
@@ -89,6 +89,9 @@ func strLen(v value) int {
 }
 
 func strConcat(x, y value) value {
+	if h, ok := y.(shash); ok {
+		return shash{prefix: strConcat(x, h.prefix), stream: h.stream}
+	}
 	if xs, ok := x.(string); ok {
 		if ys, ok := y.(string); ok {
 			return xs + ys
@@ -121,6 +124,28 @@ func strEq(x, y value) value {
 		if ys, ok := y.(string); ok {
 			return xs == ys
 		}
+	}
+	if a, ok := x.(shash); ok {
+		switch b := y.(type) {
+		case shash:
+			pe := strEq(a.prefix, b.prefix)
+			var pt *Term
+			switch p := pe.(type) {
+			case bool:
+				pt = mkBool(p)
+			case *Term:
+				pt = p
+			}
+			return simplifyBool(mkAnd(pt, streamEq(a.stream, b.stream)))
+		case string, sstr:
+			// a concrete decimal string never equals the rendering of a symbolic-stream
+			// hash (no collision with the "0" of the no-Vary id: assumption)
+			return false
+		}
+		abort("comparison of hash string with %T", y)
+	}
+	if _, ok := y.(shash); ok {
+		return strEq(y, x)
 	}
 	switch a := x.(type) {
 	case sdate:
@@ -257,6 +282,8 @@ func describeString(v value) string {
 		return "httpdate(" + s.sec.String() + ")"
 	case snum:
 		return "decimal(" + s.n.String() + ")"
+	case shash:
+		return describeString(s.prefix) + "+hash(" + describeString(mkSstr(s.stream)) + ")"
 	}
 	return fmt.Sprintf("%T", v)
 }
